@@ -169,6 +169,7 @@ int main(int argc, char **argv)
 {
 	const char *tier = NULL, *outpath = NULL, *replay = NULL;
 	int jobs = 16, verbose = 0, only = -1;
+	const char *replay_dir = "/verif/replays";
 	double deadline_s = 0;
 	for (int i = 1; i < argc; i++) {
 		if (!strcmp(argv[i], "--tier") && i + 1 < argc)
@@ -183,6 +184,8 @@ int main(int argc, char **argv)
 			replay = argv[++i];
 		else if (!strcmp(argv[i], "--verbose"))
 			verbose = 1;
+		else if (!strcmp(argv[i], "--replay-dir") && i + 1 < argc) /* for mutation runs on scratch copies */
+			replay_dir = argv[++i];
 		else if (!strcmp(argv[i], "--only") && i + 1 < argc) /* development aid: run one section */
 			only = atoi(argv[++i]);
 		else {
@@ -332,7 +335,7 @@ int main(int argc, char **argv)
 	/* collect violations: one entry per key; prefer the replay that shows the peer-visible consequence */
 	struct outviol *ov = calloc(C10_MAXVIOL * 8, sizeof(*ov));
 	int nov = 0;
-	mkdir("/verif/replays", 0777);
+	mkdir(replay_dir, 0777);
 	for (int i = 0; i < nsec; i++) {
 		struct c10_result *r = &sec[i].res;
 		for (int k = 0; k < r->nviol; k++) {
@@ -369,7 +372,7 @@ int main(int argc, char **argv)
 			o->depth = use->depth;
 			o->weight = use->weight;
 			o->observational = sec[i].observational;
-			snprintf(o->path, sizeof(o->path), "/verif/replays/C10-%012llx.txt",
+			snprintf(o->path, sizeof(o->path), "%s/C10-%012llx.txt", replay_dir,
 			         (unsigned long long)(fnv_str(use->replay) & 0xffffffffffffULL));
 			FILE *rf = fopen(o->path, "w");
 			if (!rf)
